@@ -96,6 +96,13 @@ func runC05(c *Ctx) {
 				a.Slab = "clean"
 			}
 			b := a
+			if i%5 == 4 { // the slab itself must not change with use: a call on a slab that has already served an over-size request
+				a = c05V1V2Case(r, sch)
+				b = a
+				b.Slab = "grown"
+				c05Pair(c, a, b, "slab-grown", r, false, false)
+				return
+			}
 			switch i % 4 {
 			case 0, 1: // slab state / history: everything must agree, positions included
 				b.Slab = Pick(r, []string{"nil", "clean", "dirty", "hist"})
@@ -125,6 +132,32 @@ func runC05(c *Ctx) {
 		})
 	}
 	c05Process(c)
+}
+
+// c05V1V2Case: a call on a slab one cell too small for N*M (FuzzyMatchV2 hands over to the greedy V1) on a text where
+// the two algorithms disagree: the pattern scattered first, contiguous at the end.
+func c05V1V2Case(r *RNG, sch int) algoCase {
+	letters := []int{'a', 'b', 'c', 'd', 'e'}
+	m := 2 + r.Intn(3)
+	pat := append([]int{}, letters[:m]...)
+	text := []int{}
+	noise := func(k int) {
+		for ; k > 0; k-- {
+			text = append(text, Pick(r, []int{'x', 'y', '.', ' ', '_', '0'}))
+		}
+	}
+	noise(r.Intn(3))
+	for _, p := range pat {
+		text = append(text, p)
+		noise(1 + r.Intn(4))
+	}
+	noise(r.Intn(6))
+	text = append(text, pat...)
+	noise(r.Intn(3))
+	cs := algoCase{Fn: 2, CS: r.Bool(), NM: r.Bool(), Fwd: r.Bool(), WithPos: r.Bool(), Scheme: sch, Text: text, Pat: pat, Slab: "tiny"}
+	cs.Bytes = r.Chance(3, 4)
+	cs.SlabCap = len(text)*len(pat) - 1 - r.Intn(3)
+	return cs
 }
 
 // process level: filtering a sub-list gives the full result restricted to it, in the same relative order
